@@ -134,6 +134,12 @@ def lookup_of(ctx, v, owner_param, want, exclude=None):
                 found = True
     if found:
         return True, ''
+    # the value may come out of a method of a private type of parser.rs that keeps the looked-up keys (`SerdeEnumKeys::of(attrs)`
+    # … `keys.require_for_algebraic_enum(..)?.0`): look-ups hidden behind such state are not followed — no verdict, not a finding
+    local_methods = {g['name'].split('::')[-1] for g in ctx.fns(file='parser.rs') if any(p_['name'] == 'self' for p_ in g['params'])}
+    opaque = sorted({str(x.get('f')) for x in vt.walk(v) if x.get('k') == 'call' and x.get('recv') is not None and x.get('f') in local_methods})
+    if opaque and not seen:
+        raise core.Incomplete(f"V1: the `{want}` value passes through the method(s) {opaque} of a private type of parser.rs; the attribute look-up behind them is not followed")
     return False, 'look-ups seen on the way: ' + (str(seen)[:160] if seen else 'none on the owner\'s attrs')
 
 
